@@ -31,6 +31,9 @@ Corpus == Leaves \cup Unsized \cup D1 \cup D2 \cup D3 \cup UNION {Bin(x, y) : x 
           \* a compound member FOLLOWED by one of the types it contains (met for the first time inside that member)
           \cup UNION {{Tup(<<E1("Option", x), x>>), Tup(<<E1("Vec", x), x>>), Tup(<<Tup(<<E0("bool"), x>>), x>>), Tup(<<E2("Result", E0("bool"), x), x>>),
                        E2("BTreeMap", E1("Vec", x), x)} : x \in {E0("u16"), E0("String"), E0("i64")}}
+          \* a tuple whose LATER member converts another tuple (directly, inside a sequence, inside a map) met for the first time
+          \cup UNION {{Tup(<<E0("u8"), Tup(<<x, E0("u32")>>)>>), Tup(<<E0("u8"), E0("bool"), E1("Vec", Tup(<<x, E0("u32")>>))>>),
+                       Tup(<<E0("u8"), E2("BTreeMap", x, E0("bool"))>>), Tup(<<Tup(<<x>>), Tup(<<E0("bool"), Tup(<<x, x>>)>>)>>)} : x \in {E0("u16"), E0("String")}}
           \* two same-named, same-path user types, alone and inside built-in constructors
           \cup UNION {{L, E1("Vec", L), E1("Option", L), E1("Box", L), ArrE(2, L), E2("Result", L, E0("u8"))} : L \in {[c |-> "Local", a |-> <<>>, n |-> 1], [c |-> "Local", a |-> <<>>, n |-> 2]}}
           \cup {Tup(<<[c |-> "Local", a |-> <<>>, n |-> 1], [c |-> "Local", a |-> <<>>, n |-> 2]>>)}
